@@ -142,6 +142,16 @@ Definition op_repeat (cap : N) (m : mem) (slen : N) (n : Z) : res * mem * list e
               if host_ok cap total then (ROk, add_heap m size, [ECheck size true; EHost total; ECheck size true; EHost total; ECharge size])
               else (RAbort, m, [ECheck size true; EHost total])
             else (ROom, m, [ECheck size false]).
+(* a native that knows the byte length of its result before building it (replace: matches * new + rest; join:
+   lines + separators): VM::check_string_capacity first, then the host builds it, then make_string (check, charge) *)
+Definition op_string_checked (cap : N) (m : mem) (total : N) : res * mem * list evt :=
+  if ISIZE_MAX <? total then (ROom, m, [])
+  else let size := SZ_STRING + total in
+       if ensure m size then
+         if host_ok cap total then (ROk, add_heap m size, [ECheck size true; EHost total; ECheck size true; EHost total; ECharge size])
+         else (RAbort, m, [ECheck size true; EHost total])
+       else (ROom, m, [ECheck size false]).
+
 (* string.pad_left / pad_right of a string of `schars` characters / `sbytes` bytes with a pad character of `pb`
    bytes: a width that is not larger than the string (or negative) returns the string itself; otherwise the
    resulting BYTE length (width - chars) * pb + bytes is checked first *)
@@ -180,7 +190,8 @@ Fixpoint host_total (t : list evt) : N :=
 (* ---- histories: every allocating primitive *)
 Inductive gop := GStr (len : N) | GObj (size : N) | GManual (n : Z) | GManualFree (bytes : N) | GSweep (size : N)
                | GArray (esz : N) (count : Z) | GVecPush (v : vecst) | GVecReserve (v : vecst) (additional : Z)
-               | GRepeat (slen : N) (n : Z) | GPad (schars sbytes pb : N) (width : Z) | GBytes (n : Z).
+               | GRepeat (slen : N) (n : Z) | GPad (schars sbytes pb : N) (width : Z) | GBytes (n : Z)
+               | GStrChecked (total : N).
 Definition gstep (cap : N) (m : mem) (o : gop) : res * mem * list evt :=
   match o with
   | GStr len => op_string m len
@@ -194,6 +205,7 @@ Definition gstep (cap : N) (m : mem) (o : gop) : res * mem * list evt :=
   | GRepeat sl n => op_repeat cap m sl n
   | GPad sc sb pb w => op_pad cap m sc sb pb w
   | GBytes n => op_bytes cap m n
+  | GStrChecked total => op_string_checked cap m total
   end.
 Fixpoint grun (cap : N) (m : mem) (h : list gop) : mem :=
   match h with [] => m | o :: r => grun cap (snd (fst (gstep cap m o))) r end.
